@@ -241,11 +241,20 @@ def memory_listing_rules(facts, rep, w, D):
                 srcs.append((cb, s, tr))
             if s.short in ("Iterator::take_while", "Iterator::skip_while", "Iterator::take", "Iterator::skip", "Iterator::step_by", "BTreeMap::range"):
                 rep.fail("R05.4", b.id, "the scan covers every key", "the key scan is limited by %s: entries outside the scanned window are not listed" % s.short, s.line)
-        # kept candidates: closure returns Some(rest.to_string()) under starts_with(prefix) && !contains('/')
+        # kept candidates: closure returns Some(rest.to_string()) under starts_with(prefix) && !contains('/'),
+        # or a loop pushes the name into the result under the same two tests
+        keep_blocks = []
         if cb.kind == "Closure":
             for ct, _, bb in inter.ret_cases(cb):
                 c = norm(ct)
                 if c[0] == "agg" and c[2] == "Some":
+                    keep_blocks.append(bb)
+        for s in inter.sites(cb):
+            if s.short in ("Vec::push", "VecDeque::push_back", "Vec::insert", "HashSet::insert", "BTreeSet::insert"):
+                keep_blocks.append(s.bb)
+        if True:
+            for bb in keep_blocks:
+                if True:
                     gs = D.guards(cb, bb)
                     sw = nc = False
                     prefix_ok = False
